@@ -2,14 +2,16 @@
 CONSTANTS
   Batches <- DesignBatches2
   Observers = {"trace"}
-  M = 2
-  Per = 1
+  M = 4
+  Per = 2
   Faults <- AllFaults
   MaxFaults = 2
   Pickle = "ascoded"
+  Variant = "ascoded"
 SPECIFICATION Spec
 INVARIANT TypeOK
 INVARIANT SafeDegradation
+INVARIANT ChildBudgetAgree
 INVARIANT TimeoutAgree
 INVARIANT ExceptionsAgree
 INVARIANT LinesAgree
